@@ -656,6 +656,8 @@ def leaves_start_with_their_token(F, res, rule):
 
 
 def run(F, res, tier):
+    from rules import c14 as _c14u
+    _c14u.text_positions_are_counted_in_bytes(F, res, rule="L10", crates=('syntax',))   # engine U: a token range or a lexer advance counted in characters loses the tail of every non-ASCII token
     R = pcache.results(F)
     res.analysed.update({"functions": ["syntax::parser::parse_module", "syntax::parser::module", BT, EAT,
                                        "GleamLexer::next", "Parser::{bump,nth,eof,start_node,start_node_before,finish_node,error}"],
